@@ -16,6 +16,7 @@
      new{rid} / clean{rid}      hooks ds.new / ds.clean: a proxy stream begins / ends
      exit{elapsed_ms, err}      driver: Mosn.Shutdown() returned - the stage manager goes on to Close and process exit
      quiesce{exited, active}    driver: every request was driven to its end
+     abandon{why}               driver: the signal point could not be set up; the run ends here without a signal
    The variables of Shutdown are bound to what was recorded; the expectations are those of Shutdown's invariants,
    evaluated softly (VTrace!Expect) on the real execution. *)
 EXTENDS Shutdown, VTrace
@@ -116,7 +117,10 @@ TQuiesce == /\ IsEvent("quiesce")
             /\ Expect(\A c \in Conns : ~Busy(c), "request-never-completed")
             /\ Keep(<<vars, stepped, srvOpen, dWaited, dMax, dRemain, dSeen>>)
 
-TraceNext == TRun \/ TConnect \/ TPhase \/ TStep \/ TDone \/ TSignal \/ TShutdown \/ TLState \/ TOnShutdown \/ TGoAway
+\* the driver could not set the signal point up (a failure before any signal): nothing of this run is judged
+TAbandon == IsEvent("abandon") /\ Keep(<<vars, stepped, srvOpen, dWaited, dMax, dRemain, dSeen>>)
+
+TraceNext == TAbandon \/ TRun \/ TConnect \/ TPhase \/ TStep \/ TDone \/ TSignal \/ TShutdown \/ TLState \/ TOnShutdown \/ TGoAway
              \/ TDrain \/ TNew \/ TClean \/ TExit \/ TQuiesce
 TraceSpec == TraceInit /\ [][TraceNext]_tvars
 ====
